@@ -18,3 +18,4 @@ def rules(ctx):
     S.c06_r6_restore(ctx)
     S.c07_rules(ctx)
     S.tracker_state_rules(ctx)
+    S.loop_completeness_rules(ctx)
